@@ -55,6 +55,9 @@ def monthTable (cu : Culture) (count : Nat) (genitive : Bool) : List Text :=
   if count = 3 then (if genitive then cu.shortMonthsGen else cu.shortMonths)
   else (if genitive then cu.longMonthsGen else cu.longMonths)
 
+/-- `_MonthFormatActionHandler.build_format_action`: genitive names iff the finished pattern has a day of month -/
+def genitiveOf (used : Nat) : Bool := decide (used &&& F.dayOfMonth â‰  0)
+
 def dayTable (cu : Culture) (count : Nat) : List Text :=
   if count = 3 then cu.shortDays else cu.longDays
 
@@ -91,7 +94,7 @@ def formatStep (cu : Culture) (used : Nat) (get : Getter) (buf : Text) : Step â†
   | .signNegativeOnly => .ok (if get .sign = 0 then buf else buf ++ ['-'])
   | .amPm count => .ok (buf ++ formatAmPm cu count (get .hours24))
   | .monthText count =>
-    match pyIndex (monthTable cu count (used &&& F.dayOfMonth â‰  0)) (get .monthNum) with
+    match pyIndex (monthTable cu count (genitiveOf used)) (get .monthNum) with
     | .error e => .error e
     | .ok t => .ok (buf ++ t)
   | .dayText count =>
